@@ -201,6 +201,7 @@ func part1(run *vlib.Run, bt *built) {
 		go func(i int, j *job) {
 			defer wg.Done()
 			results[i] = explore(bt, j)
+			prefetch(bt, results[i])
 		}(i, j)
 	}
 	wg.Wait()
@@ -313,14 +314,7 @@ func part1(run *vlib.Run, bt *built) {
 				scheds = append(scheds, rep.FirstOfEachOutcome[k].Choices)
 			}
 			first := rep.FirstOfEachOutcome[completing[0]]
-			keep := ""
-			if !sampled["asm"+j.Name] && j.Bound != fullBound {
-				keep = filepath.Join(bt.Scratch, "keep", strings.ReplaceAll(j.label(), "/", "_"))
-			}
-			repeat := 1
-			if len(completing) > 1 {
-				repeat = 8
-			}
+			keep, repeat := replayPlan(bt, j, len(completing))
 			rp, err := replayInProcess(bt, j, scheds, repeat, keep)
 			if err != nil {
 				fatalHarness("%s: replay: %v", j.label(), err)
@@ -413,7 +407,7 @@ func part1(run *vlib.Run, bt *built) {
 				}
 				mapOrderCases++
 			}
-			if keep != "" {
+			if keep != "" && !sampled["asm"+j.Name] {
 				if asm, err := os.ReadFile(filepath.Join(keep, "0", "out.asm")); err == nil {
 					sampled["asm"+j.Name] = true
 					run.Sample(map[string]any{"kind": "completing schedule", "program": j.label(), "choices": first.Choices, "assembly": strings.Split(strings.TrimSpace(string(asm)), "\n")})
